@@ -13,7 +13,7 @@ import ast
 from bfsa.load import AnalysisError
 from rules.c20 import MUTATING_CALLS, _STATE_SAMPLE, _module_state_writes
 
-LIB_MODULES = ("bec2format.bf3file", "bec2format.bec2file", "bec2format.configid", "bec2format.bytes_reader", "bec2format.crypto", "bec2format.hexutil", "bec2format.error",
+LIB_MODULES = ("bec2format.bf3file", "bec2format.bec2file", "bec2format.configid", "bec2format.bytes_reader", "bec2format.crypto", "bec2format.hwcids", "bec2format.error",
                "register_crypto_plugin")
 
 _DEFAULT_SAMPLE = '''
